@@ -55,7 +55,7 @@ fn axes(quick: bool, f32: bool) -> Vec<Axis> {
     };
     let vs = value_set_eps(e);
     v.extend(alpha::subsets_axes(&vs, "v", 2, if quick { 4 } else { 12 }));
-    let offs = [0.0, -3.0, 1.25, 1048576.0, -1048576.0];
+    let offs = [0.0, -3.0, 1.25, 1048576.0, -1048576.0, 1099511627776.0];
     if quick {
         v.extend(alpha::full_word_axes(&alpha::h3(), "w", 2, 5, &offs));
         v.extend(alpha::long_word_axes(
